@@ -1,6 +1,6 @@
 (* Model/Edits.v — C09: the tree-editing operations and queries of node.py as they are NOW
-   (add_child 163-179, remove_child 537-547, remove_children 549-550, replace_child 566-586,
-   shift 588-641, child_index 221-238, find_* 294-437, get_ancestry 439-447,
+   (add_child 163-179, remove_child 537-549, remove_children 551-555, replace_child 571-593,
+   shift 595-648, child_index 221-238, find_* 294-437, get_ancestry 439-447,
    delete_node_instance 84-101).  Namespace side effects of add_child are C13's.
    A forest is a pure state over object identities [nat]; definitions only. *)
 From MP Require Import Common.Base.
@@ -108,11 +108,22 @@ Definition exec_add (s : st) (p c : nat) (idx : option Z) : st * ret :=
             end in
   (set_parent (set_kids s p l') c (Some p), RNone).
 
+(** if child.parent is self: child.parent = None *)
+Definition opt_nat_eqb (a : option nat) (b : nat) : bool :=
+  match a with Some x => Nat.eqb x b | None => false end.
+Definition clear_parent_if (s : st) (c p : nat) : st :=
+  if opt_nat_eqb (parent s c) p then set_parent s c None else s.
+
 Definition exec_remove (s : st) (p c : nat) : st * ret :=
   match py_remove c (kids s p) with
   | None => (s, Raise ValueError)
-  | Some l' => (set_kids s p l', RNone)
+  | Some l' => (clear_parent_if (set_kids s p l') c p, RNone)
   end.
+
+(** remove_children: for child in self._children: (clear its parent link if it names self);
+    then self._children = [] *)
+Definition exec_clear (s : st) (p : nat) : st * ret :=
+  (set_kids (fold_left (fun s c => clear_parent_if s c p) (kids s p) s) p [], RNone).
 
 Definition exec_replace (fuel : nat) (s : st) (p old new : nat) (del : bool) : st * ret :=
   if negb (Nat.eqb (name s new) (name s old)) then (s, Raise ValueError) else
@@ -123,7 +134,9 @@ Definition exec_replace (fuel : nat) (s : st) (p old new : nat) (del : bool) : s
     match list_set i new (kids s1 p) with
     | None => (s1, Raise IndexError)
     | Some l' =>
-      let s2 := set_kids s1 p l' in
+      let s2' := set_kids s1 p l' in
+      (* if old_child.parent is self and old_child is not new_child: old_child.parent = None *)
+      let s2 := if negb (Nat.eqb old new) then clear_parent_if s2' old p else s2' in
       if del then
         let '(r, e) := del_tree fuel (kids s2) (reg s2) old in
         (set_reg s2 r, match e with None => RNone | Some x => Raise x end)
@@ -178,7 +191,7 @@ Definition exec (fuel : nat) (o : op) (s : st) : st * ret :=
   | RemoveChild p c => exec_remove s p c
   | ReplaceChild p old new del => exec_replace fuel s p old new del
   | Shift p c d sib => exec_shift s p c d sib
-  | RemoveChildren p => (set_kids s p [], RNone)
+  | RemoveChildren p => exec_clear s p
   end.
 
 Definition run (fuel : nat) (h : list op) (s : st) : st := fold_left (fun s o => fst (exec fuel o s)) h s.
